@@ -176,9 +176,13 @@ def run_sweep(args):
         base["sweep"]["attempt"] = attempt
         rng = random.Random(run_seed ^ 0x5EED)
         ords = choose_ordinals(sites, total, args.get("mode", "sites"), args.get("cap", 0), rng)
+        all_points = len(ords)
+        nchunks = args.get("nchunks", 1)
+        if nchunks > 1:
+            ords = ords[args.get("chunk", 0)::nchunks]     # this job's share of the crash points (same base, same dry run)
         out["sweep"] = {"run_seed": run_seed, "target": {k: v for k, v in base["ops"][t].items() if k not in ("doc", "recipe")},
                         "line_events": total, "distinct_sites": len(sites), "points": len(ords), "mode": args.get("mode", "sites"),
-                        "dry_status": dry[t]["status"]}
+                        "dry_status": dry[t]["status"], "chunk": [args.get("chunk", 0), nchunks], "all_points": all_points}
         fired_sites = {}
         for n in ords:
             if time.time() > args.get("deadline", 1e18):
